@@ -9,3 +9,10 @@ MUTANTS = [
     {'name': 'snote formatter table misses a field', 'file': 'partitura/io/matchfile_base.py', 'old': '        OffsetInBeats=format_float_unconstrained,\n        ScoreAttributesList=format_list,\n    )\n\n    def __init__(\n        self,\n        version: Version,\n        anchor: str,', 'new': '        ScoreAttributesList=format_list,\n    )\n\n    def __init__(\n        self,\n        version: Version,\n        anchor: str,', 'expect': 'F5b'}]
 
 NEUTRALS = [{'name': 'reorder independent class attributes', 'file': 'partitura/io/matchfile_base.py', 'old': '    field_names = ("Onsets",)\n    field_types = (list,)\n', 'new': '    field_types = (list,)\n    field_names = ("Onsets",)\n'}]
+
+# changes made by sub-agents that were given only the property text (see /verif/seeded/<id>/): each must stay reported
+SEEDED = [
+    {'name': 'seeded change C07-r2', 'seed': 'C07-r2', 'expect': '|F10-conv|'},
+    {'name': 'seeded change C07', 'seed': 'C07', 'expect': '|FMT-drop|'},
+]
+MUTANTS += SEEDED
